@@ -45,7 +45,7 @@ import (
 
 const nVals = 4
 const flushRounds = 48 // barrier hand-offs after an event that only makes a channel ready
-const watchdog = 8 * time.Second
+const watchdog = 4 * time.Second
 const haltGrace = 30 * time.Millisecond
 
 // ---------------------------------------------------------------- output items (see SMWire.v)
@@ -76,9 +76,10 @@ const (
 )
 
 type recorder struct {
-	mu sync.Mutex
-	sm [][]uint64
-	cm [][]uint64
+	mu  sync.Mutex
+	sm  [][]uint64
+	cm  [][]uint64
+	fin [][]uint64 // finalize requests: recorded by the harness goroutine when it receives them
 }
 
 func (r *recorder) SM(xs ...uint64) {
@@ -528,7 +529,9 @@ func (h *harness) noteRE(re tmengine.VerifSMRoundEntrance) {
 }
 
 func (h *harness) noteFin(req tmdriver.FinalizeBlockRequest) {
-	h.rec.SM(oFinalizeReq, req.Header.Height, uint64(req.Round), idOf(req.Header.Hash))
+	h.rec.mu.Lock()
+	h.rec.fin = append(h.rec.fin, []uint64{oFinalizeReq, req.Header.Height, uint64(req.Round), idOf(req.Header.Hash)})
+	h.rec.mu.Unlock()
 	h.lastFin = &req
 }
 
@@ -602,6 +605,12 @@ func (h *harness) settleCM() bool {
 		default:
 		}
 		return true
+	case <-h.sm.VerifKernelDone():
+		// the context was cancelled from inside (watchdog Terminate): both goroutines are gone
+		time.Sleep(haltGrace)
+		h.rec.SM(oHalt)
+		h.halted = true
+		return true
 	case <-time.After(watchdog):
 		return false
 	}
@@ -670,6 +679,10 @@ func (h *harness) drainActions() {
 var out = bufio.NewWriter(os.Stdout)
 
 func (h *harness) emit() {
+	h.rec.mu.Lock()
+	h.rec.sm = append(h.rec.sm, h.rec.fin...)
+	h.rec.fin = nil
+	h.rec.mu.Unlock()
 	if h.running {
 		h.drainActions()
 	}
